@@ -8,7 +8,7 @@ from . import c04
 
 LEVEL = 'exploration'
 BUDGET_S = {'quick': 30, 'thorough': 200}
-REQUIRED = {'all': ['oracle.pongs_matched', 'oracle.auto_pong_off_runs', 'oracle.closing_runs', 'oracle.pong_write_fault_runs',
+REQUIRED = {'all': ['oracle.pongs_matched', 'oracle.pings_vs_ground_truth', 'oracle.auto_pong_off_runs', 'oracle.closing_runs', 'oracle.pong_write_fault_runs',
                     'oracle.order_vs_app_writes_checked']}
 RULE = ('streams biased to Pings (every payload length 0..125, all byte values, several per read, between '
         'fragments, back to back) x auto_pong on/off x application policy (passive / send at every Ping / '
@@ -115,6 +115,21 @@ def _faulting_session(fault):
 def run_case(case, acc):
     run, w, expected = execute(case)
     key, detail = judge(case, run, w, acc)
+    if key is None:
+        # ground truth: every Ping the server sent before its own Close is yielded as a Ping event,
+        # in order, with the identical payload (and therefore checked for its Pong above)
+        want = []
+        for e in expected:
+            if e[0] == 'closing':
+                break
+            if e[0] == 'ping':
+                want.append(e[1])
+        got = [bytes(e.data) for e in run.events if e.name == 'ping']
+        acc.count2('oracle', 'pings_vs_ground_truth', len(want))
+        if got[:len(want)] != want:
+            key = 'ping-not-delivered-or-altered'
+            detail = dict(sent=[x[:8] for x in want], yielded=[x[:8] for x in got],
+                          events=[H.norm(e) for e in run.events if e.name != 'poll'][-6:])
     if key is None and (case.get('fault') or case.get('close_at') is not None):
         # the same stream without the disturbance: identical events (except the terminal one)
         run0, w0, _ = execute(case, with_disturbance=False)
